@@ -106,6 +106,19 @@ class H2StreamStateMachine:
         # How the stream was closed. One of StreamClosedBy.
         self.stream_closed_by = None
 
+    def save(self):
+        """
+        Returns a copy of the state of this state machine, to be handed to
+        :meth:`restore` if an input that was accepted has to be taken back.
+        """
+        return vars(self).copy()
+
+    def restore(self, saved_state):
+        """
+        Puts the state machine back into a state returned by :meth:`save`.
+        """
+        vars(self).update(saved_state)
+
     def process_input(self, input_):
         """
         Process a specific input in the state machine.
@@ -860,18 +873,27 @@ class H2Stream:
 
             input_ = StreamInputs.SEND_INFORMATIONAL_HEADERS
 
+        saved_state = self.state_machine.save()
         events = self.state_machine.process_input(input_)
 
-        # This has to be checked before the headers are encoded: encoding is
-        # irreversible, and a block we refuse to send must not be encoded.
-        if self.state_machine.trailers_sent and not end_stream:
-            raise ProtocolError("Trailers must have END_STREAM set.")
+        try:
+            # This has to be checked before the headers are encoded: encoding
+            # is irreversible, and a block we refuse to send must not be
+            # encoded.
+            if self.state_machine.trailers_sent and not end_stream:
+                raise ProtocolError("Trailers must have END_STREAM set.")
 
-        hf = HeadersFrame(self.stream_id)
-        hdr_validation_flags = self._build_hdr_validation_flags(events)
-        frames = self._build_headers_frames(
-            headers, encoder, hf, hdr_validation_flags
-        )
+            hf = HeadersFrame(self.stream_id)
+            hdr_validation_flags = self._build_hdr_validation_flags(events)
+            frames = self._build_headers_frames(
+                headers, encoder, hf, hdr_validation_flags
+            )
+        except ProtocolError:
+            # The state machine allowed the headers but we refuse to send
+            # them. Nothing was emitted, so the stream has to look exactly as
+            # it did before the call.
+            self.state_machine.restore(saved_state)
+            raise
 
         if end_stream:
             # Not a bug: the END_STREAM flag is valid on the initial HEADERS
@@ -898,6 +920,7 @@ class H2Stream:
         # Because encoding headers makes an irreversible change to the header
         # compression context, we make the state transition *first*.
 
+        saved_state = self.state_machine.save()
         events = self.state_machine.process_input(
             StreamInputs.SEND_PUSH_PROMISE
         )
@@ -905,9 +928,14 @@ class H2Stream:
         ppf = PushPromiseFrame(self.stream_id)
         ppf.promised_stream_id = related_stream_id
         hdr_validation_flags = self._build_hdr_validation_flags(events)
-        frames = self._build_headers_frames(
-            headers, encoder, ppf, hdr_validation_flags
-        )
+        try:
+            frames = self._build_headers_frames(
+                headers, encoder, ppf, hdr_validation_flags
+            )
+        except ProtocolError:
+            # See send_headers: a refused header block leaves no trace.
+            self.state_machine.restore(saved_state)
+            raise
 
         return frames
 
